@@ -65,6 +65,8 @@ def parseOp (ws : List String) : Option RepOp :=
   | ["rbpromote"] => some .rbPromote
   | ["rbend"] => some .rbEnd
   | ["clone", n] => some (.clone n)
+  | ["maxchain", a] => do some (.maxChainSet (← a.toNat?))
+  | ["replace", t, s] => some (.replace t s)
   | _ => none
 
 /-- observation requests do not change the state -/
